@@ -351,7 +351,7 @@ def run(ctx):
         with mp.get_context('fork').Pool(JOBS) as p2:
             res = p2.map(run_task, tk, chunksize=1)
         process(ctx, None, res)
-    return ctx.finish(deep_search=deep, level='core')
+    return ctx.finish(deep_search=deep)
 
 
 def replay(ctx, data):
